@@ -47,6 +47,12 @@ def handle (line : String) : String :=
       | "C14" => handleC14 inp obs
       | "C07" => handleC07 inp obs
       | "C08" => handleC08 inp obs
+      -- the large-history path of Driver/Large.lean forced on a case of any size (cross-validation)
+      | "C16L" => (Large.c16? true inp obs).getD { kind := "badcase", detail := "unparsable C16 case" }
+      | "C17L" => (Large.c17? true inp obs).getD { kind := "badcase", detail := "unparsable C17 case" }
+      | "C18L" => (Large.c18? true inp obs).getD { kind := "badcase", detail := "unparsable C18 case" }
+      | "C19L" => (Large.c19? true inp obs).getD { kind := "badcase", detail := "unparsable C19 case" }
+      | "C20L" => (Large.c20? true inp obs).getD { kind := "badcase", detail := "unparsable C20 case" }
       | _ => { kind := "badcase", detail := s!"unknown property {prop}" }
     let v := match fl with
       | some f => { v with classes := v.classes ++ flavourClasses f }
